@@ -12,7 +12,7 @@ From Coq Require Import String.
 From Emmet Require Import lib.Base lib.StrLit model.MarkupTokenizer model.MarkupParser model.MarkupConvert
      model.MarkupResolve model.OutStream model.FormatHtml proofs.AttrProofs proofs.AttrParseProofs
      proofs.ParserSpine proofs.ParserGroups proofs.TextSpec proofs.AttrText proofs.AttrTextParse
-     proofs.AttrTextConvert proofs.AttrTextFlat proofs.TextProofs model.MarkupExpand proofs.AttrTextExpand.
+     proofs.AttrTextConvert proofs.AttrTextFlat proofs.TextProofs model.MarkupExpand proofs.AttrTextExpand proofs.AttrTextStmt.
 
 (* merging: for ALL attribute lists the code's loop (dictionary lookup + in-place update) computes
    [merge_spec]: every name once at its first position; class values joined by one space in written
@@ -230,6 +230,29 @@ Theorem C03_expand_element_text :
 Proof. exact expand_element_text. Qed.
 Print Assumptions C03_expand_element_text.
 
+(* (5) "for EVERY element ... of exactly that element": a whole flat statement through markup.parse.
+   For the text  e1 op1 e2 ... en  of elements of the grammar whose names are neither snippets nor
+   lorem / label / (under xsl) xsl:variable, xsl:with-param ([plain_name]: these trigger the snippet,
+   lorem, label and xsl addons), the resolved tree has -- in preorder, as (depth, node without its
+   children) -- exactly the places the operators denote ([edenote]), and the node at the place of
+   element e carries e's own name, text and the [merge_spec] of the mentions written on e: no attribute
+   is lost, duplicated or moved to another element.  ([apreNL] determines the tree.) *)
+Theorem C03_statement_markup_parse :
+  forall (cfg : mconfig) (xs : list (selem * sop)),
+    Forall (fun x => selem_ok (fst x) /\ jsx_ok (mc_jsx cfg) (fst x) /\ plain_name cfg (fst x)) xs ->
+    mc_text cfg = WNone ->
+    exists forest,
+      markup_parse cfg (stmt_text xs) = Ok forest /\
+      apreNL 0 forest =
+        map (fun x => (fst x, ANode (Some (se_name (snd x))) (elem_text_value (snd x)) None
+                                    (match written_mentions (snd x) with
+                                     | [] => None
+                                     | m => Some (merge_spec (mc_reverse_attrs cfg) [] m)
+                                     end) [] false))
+            (edenote 0 xs).
+Proof. exact statement_markup_parse. Qed.
+Print Assumptions C03_statement_markup_parse.
+
 (* non-vacuity of (4): a.x[b=f(1) c. !d class='y z']#i{5 > 3 \{ok\}}  expands to
    <a class="x y z" b="f(1)" c="c" id="i">5 > 3 {ok}</a> *)
 Example C03_expand_nonvacuous :
@@ -282,10 +305,13 @@ Example C03_statement_nonvacuous :
   let xs := [(mkSElem (S "a") [PClass (S "x")] None, SChild);
              (mkSElem (S "b") [PSet [mkSAttr false (S "c") false (SUnq (S "1"))]] (Some (S "t>u")), SSibling);
              (mkSElem (S "d") [PId (S "e")] None, SSibling)] in
-  Forall (fun x => selem_ok (fst x) /\ jsx_ok false (fst x)) xs /\ stmt_text xs = S "a.x>b[c=1]{t>u}+d#e".
+  let cfg := mkMConfig (S "html") [(S "a", S "a[href]")] [] WNone None None false None [] false false in
+  Forall (fun x => selem_ok (fst x) /\ jsx_ok false (fst x)) xs /\ stmt_text xs = S "a.x>b[c=1]{t>u}+d#e" /\
+  Forall (fun x => plain_name cfg (fst x)) (tl xs).
 Proof.
-  cbv zeta. split; [|vm_compute; reflexivity].
-  repeat constructor; try discriminate.
+  cbv zeta. split; [|split; [vm_compute; reflexivity|]].
+  - repeat constructor; try discriminate.
+  - repeat constructor.
 Qed.
 
 (* non-vacuity: .x [b=1] .y [b=2] merges to class="x y" b=2 (b=1 under reverse), class first *)
